@@ -30,10 +30,30 @@ impl<T: Copy> Cell<T> {
 }
 // CowCell<Cid>::write(): a private, writable copy of the published maximum change id (concread documentation)
 pub struct CidCell { pub max: Cid }
-impl CidCell { pub fn write(&self) -> (r: Box<Cid>) ensures *r == self.max { Box::new(Cid { ts: self.max.ts, s_uuid: self.max.s_uuid }) } }
+pub struct CidTxn { pub v: Cid }
+impl core::ops::Deref for CidTxn { type Target = Cid; fn deref(&self) -> (r: &Cid) ensures *r == self.v { &self.v } }
+impl CidTxn {
+    pub fn set(&mut self, c: Cid) ensures final(self).v == c { self.v = c; }                      // `*cid = c` (DerefMut of the CowCell write handle)
+    #[verifier::external_body] pub fn commit(self) { unimplemented!() }                           // publishes the new maximum to later transactions
+}
+impl CidCell { pub fn write(&self) -> (r: CidTxn) ensures r.v == self.max { CidTxn { v: Cid { ts: self.max.ts, s_uuid: self.max.s_uuid } } } }
 pub struct Backend { pub o: u8 }
 pub struct BackendWriteTransaction { pub o: u8 }
 impl Backend { #[verifier::external_body] pub fn write(&self) -> (r: Result<BackendWriteTransaction, OperationError>) { unimplemented!() } }
+// the storage transaction: remembers the maximum change time written into it; `stored_ok(b)` = its commit reported success
+pub uninterp spec fn stored_ok(b: BackendWriteTransaction) -> bool;
+impl BackendWriteTransaction {
+    pub uninterp spec fn ts_max(&self) -> Option<Duration>;
+    #[verifier::external_body] pub fn set_db_ts_max(&mut self, ts: Duration) -> (r: Result<(), OperationError>) ensures r is Ok ==> final(self).ts_max() == Some(ts) { unimplemented!() }
+    #[verifier::external_body] pub fn commit(self) -> (r: Result<(), OperationError>) ensures r is Ok ==> stored_ok(self) { unimplemented!() }
+}
+impl<T> Txn<T> {
+    #[verifier::external_body] pub fn commit(self) { unimplemented!() }
+    #[verifier::external_body] pub fn clear(&mut self) { unimplemented!() }
+}
+pub struct SchemaTxn { pub o: u8 } pub struct FallibleTxn { pub o: u8 }
+impl SchemaTxn { #[verifier::external_body] pub fn commit(self) -> (r: Result<(), OperationError>) { unimplemented!() } }
+impl FallibleTxn { #[verifier::external_body] pub fn commit(self) -> (r: Result<(), OperationError>) { unimplemented!() } }
 #[derive(Clone, Copy)] pub struct ServerPhase { pub o: u8 }
 #[derive(Clone, Copy)] pub struct DomainInfo { pub o: u8 }
 #[derive(Clone, Copy)] pub struct SystemConfig { pub o: u8 }
@@ -43,6 +63,9 @@ impl Backend { #[verifier::external_body] pub fn write(&self) -> (r: Result<Back
 #[derive(Clone, Copy)] pub struct KeyInner { pub o: u8 }
 #[derive(Clone, Copy)] pub struct CacheInner { pub o: u8 }
 #[derive(Clone, Copy)] pub struct DynGroupCache { pub o: u8 }
+pub struct SchemaCell { pub o: u8 } pub struct FallibleCell { pub o: u8 }
+impl SchemaCell { #[verifier::external_body] pub fn write(&self) -> (r: SchemaTxn) { unimplemented!() } }
+impl FallibleCell { #[verifier::external_body] pub fn write(&self) -> (r: FallibleTxn) { unimplemented!() } }
 pub struct SemaphorePermit { pub o: u8 }
 pub struct ChangeFlag { pub o: u64 }
 impl ChangeFlag { pub fn empty() -> (r: ChangeFlag) { ChangeFlag { o: 0 } } }
@@ -52,21 +75,26 @@ pub struct NameMap { pub o: u8 }
 pub fn kvx_default_name_map() -> (r: NameMap) { NameMap { o: 0 } }
 pub struct QueryServerWriteTransaction {
     pub committed: bool, pub phase: Txn<ServerPhase>, pub d_info: Txn<DomainInfo>, pub system_config: Txn<SystemConfig>, pub feature_config: Txn<FeatureConfig>,
-    pub curtime: Duration, pub cid: Box<Cid>, pub trim_cid: Cid, pub be_txn: BackendWriteTransaction, pub schema: Txn<SchemaInner>,
-    pub accesscontrols: Txn<AcpInner>, pub key_providers: Txn<KeyInner>, pub changed_flags: ChangeFlag, pub changed_uuid: HashSet<Uuid>,
+    pub curtime: Duration, pub cid: CidTxn, pub trim_cid: Cid, pub be_txn: BackendWriteTransaction, pub schema: SchemaTxn,
+    pub accesscontrols: FallibleTxn, pub key_providers: FallibleTxn, pub changed_flags: ChangeFlag, pub changed_uuid: HashSet<Uuid>,
     pub _db_ticket: SemaphorePermit, pub _write_ticket: SemaphorePermit, pub resolve_filter_cache_clear: bool,
     pub resolve_filter_cache_write: Txn<CacheInner>, pub resolve_filter_cache: Txn<CacheInner>, pub dyngroup_cache: Txn<DynGroupCache>, pub txn_name_to_uuid: NameMap,
 }
 pub struct QueryServer {
     pub phase: Cell<ServerPhase>, pub d_info: Cell<DomainInfo>, pub system_config: Cell<SystemConfig>, pub feature_config: Cell<FeatureConfig>,
-    pub be: Backend, pub schema: Cell<SchemaInner>, pub accesscontrols: Cell<AcpInner>, pub cid_max: CidCell,
-    pub resolve_filter_cache: Cell<CacheInner>, pub dyngroup_cache: Cell<DynGroupCache>, pub key_providers: Cell<KeyInner>,
+    pub be: Backend, pub schema: SchemaCell, pub accesscontrols: FallibleCell, pub cid_max: CidCell,
+    pub resolve_filter_cache: Cell<CacheInner>, pub dyngroup_cache: Cell<DynGroupCache>, pub key_providers: FallibleCell,
 }
 pub open spec fn dsecs(n: u64) -> Duration { Duration { secs: n, nanos: 0 } }
 impl QueryServer {
     // semaphore acquisition (tokio): opaque
     #[verifier::external_body] pub fn write_acquire_ticket(&self) -> (r: Option<(SemaphorePermit, SemaphorePermit)>) { unimplemented!() }
 //@extract qs_write
+}
+impl QueryServerWriteTransaction {
+    // reload of schema / access controls / domain info from changed entries (C04: not decided); leaves the change id and the storage transaction's time alone
+    #[verifier::external_body] pub fn reload(&mut self) -> (r: Result<(), OperationError>) ensures final(self).cid == old(self).cid, final(self).be_txn.ts_max() == old(self).be_txn.ts_max(), final(self).committed == old(self).committed { unimplemented!() }
+//@extract qs_commit
 }
 }
 fn main(){}
